@@ -269,6 +269,12 @@ fn gen_traffic(ctx: &GenCtx) -> Vec<Value> {
 fn encrypt_inner(inner: &[u8], cfg: &Value, sk: &pgp::composed::PlainSessionKey, rng_key: u64) -> Option<Vec<u8>> {
     let mut rng = SimRng::new(rng_key, "c04enc", false);
     match sk {
+        // legacy "Symmetrically Encrypted Data" container (tag 9, no integrity protection): recipients
+        // that opted in with enable_legacy() parse whatever it decrypts to
+        pgp::composed::PlainSessionKey::V3_4 { sym_alg, key } if rng_key % 3 == 0 => {
+            let body = sym_alg.encrypt(&mut rng, key.as_ref(), inner).ok()?;
+            frame(9, &body, &LenForm::NewMinimal)
+        }
         pgp::composed::PlainSessionKey::V3_4 { sym_alg, key } => {
             let mut e = sym_alg.stream_encryptor(&mut rng, key.as_ref(), inner).ok()?;
             let mut body = vec![1u8];
